@@ -4,6 +4,8 @@ import DimodProofs.JsonValue
 import DimodProofs.DqmFile
 import DimodProofs.LegacyProofs
 import DimodModel.HeaderDicts
+import DimodProofs.FileIO
+import DimodProofs.JsonContracts
 
 /-! # C09 — binary model files load back as the identical model
 
@@ -244,6 +246,120 @@ theorem bqm_header_dict_consistent (ver : Nat) (ignore : Bool) (vartype dsz isz 
 example : (FloatParts.mk true 0 ['2', '5'] none).OK ∧ (FloatParts.mk false 1 [] (some (['+'], ['1', '6']))).OK ∧
     (FloatParts.mk false 1 ['5'] (some (['-'], ['0', '7']))).OK := by
   refine ⟨⟨?_, ?_, ?_⟩, ⟨?_, ?_, ?_⟩, ⟨?_, ?_, ?_⟩⟩ <;> simp [isDigit] <;> decide
+
+/-! ## round 4: spool size, input kind, ignore_labels, object dtype -/
+
+/-- **`spool_size` does not matter**: whatever `max_size` the `SpooledTemporaryFile` was given (in
+    memory or rolled over to disk), reading the file `to_file` returns gives the same bytes — the
+    encoder's — for BQM, QM, CQM and DQM files. -/
+theorem spool_size_irrelevant (s1 s2 : Nat) (maj : UInt8) (hdrText varsText zipBytes npz : Bytes) (h : QHeader J) (vi : VarInfo)
+    (c : QContent) (labelled : Bool) :
+    (bqmToFile s1 maj hdrText h c varsText).readAll = (bqmToFile s2 maj hdrText h c varsText).readAll ∧
+    (bqmToFile s1 maj hdrText h c varsText).readAll = bqmEncode maj hdrText h c varsText ∧
+    (qmToFile s1 hdrText h vi c varsText).readAll = (qmToFile s2 hdrText h vi c varsText).readAll ∧
+    (qmToFile s1 hdrText h vi c varsText).readAll = qmEncode hdrText h vi c varsText ∧
+    (cqmToFile s1 hdrText zipBytes).readAll = (cqmToFile s2 hdrText zipBytes).readAll ∧
+    (dqmToFile s1 hdrText labelled npz varsText).readAll = (dqmToFile s2 hdrText labelled npz varsText).readAll := by
+  simp [bqmToFile_readAll, qmToFile_readAll, cqmToFile_readAll, dqmToFile_readAll]
+
+/-- **bytes or file input**: `from_file` gives the same result for the bytes object and for a file
+    object positioned at the start of the model (wherever that is in the file); with the file
+    `to_file` returned (any spool size) it is the original model.  Stated for BQM and QM. -/
+theorem from_file_input_irrelevant (parse : Bytes → Option (QHeader J)) (parseVars : Bytes → Option (List J)) (spool : Nat)
+    (maj : UInt8) (hdrText varsText junk : Bytes) (h : QHeader J) (vi : VarInfo) (c : QContent) (labels : List J)
+    (hmaj : maj.toNat < 3) (hh : HeaderOK parse hdrText h)
+    (hv1 : maj.toNat < 2 → ∃ l, h.vars = .labels l) (hv2 : 2 ≤ maj.toNat → h.vars.truthy = true → VarsOK parseVars varsText labels)
+    (hvq : h.vars.truthy = true → VarsOK parseVars varsText labels) :
+    (BqmWF h c →
+      bqmFromFile parse parseVars (.bytes (bqmToFile spool maj hdrText h c varsText).readAll) = .ok (bqmResult maj h c labels, []) ∧
+      bqmFromFile parse parseVars (.file (junk ++ (bqmToFile spool maj hdrText h c varsText).readAll) junk.length) =
+        .ok (bqmResult maj h c labels, [])) ∧
+    (QmWF h vi c →
+      qmFromFile true parse parseVars (.bytes (qmToFile spool hdrText h vi c varsText).readAll) = .ok (qmResult h vi c labels, []) ∧
+      qmFromFile true parse parseVars (.file (junk ++ (qmToFile spool hdrText h vi c varsText).readAll) junk.length) =
+        .ok (qmResult h vi c labels, [])) := by
+  refine ⟨fun wf => ?_, fun wf => ?_⟩
+  · have := bqm_file_roundtrip parse parseVars maj hdrText varsText h c labels hmaj hh wf hv1 hv2
+    simp only [bqmFromFile, stream_file, bqmToFile_readAll]
+    exact ⟨this, this⟩
+  · have := qm_file_roundtrip parse parseVars hdrText varsText h vi c labels hh wf hvq
+    simp only [qmFromFile, stream_file, qmToFile_readAll]
+    exact ⟨this, this⟩
+
+/-- **`ignore_labels`** (an option of `BinaryQuadraticModel.to_file` and `DiscreteQuadraticModel.to_file`;
+    `QuadraticModel.to_file` and `ConstrainedQuadraticModel.to_file` have no such option).  With it
+    the header says "index-labelled" (format 2, DQM) or lists `0 … n-1` (format 1); the loader then
+    leaves the variables of the fresh model alone, and those are C13's `relabel_as_integers` of the
+    original labels, whatever they were. -/
+theorem ignore_labels_is_relabel_as_integers (vartype dsz isz : Nat) (c : QContent) (labels : List FLabel) (orig : List Label) :
+    (bqmHeaderDict 2 true vartype dsz isz c labels).variables.truthy = false ∧
+    (bqmHeaderDict 1 true vartype dsz isz c labels).variables =
+      .labels ((List.range c.linear.length).map fun (i : Nat) => JVal.int (i : Int)) ∧
+    dqmVariablesFlag true labels = false ∧
+    loadedLabels (fun i => Label.int (i : Nat)) orig.length none = (LSpec.step orig .relabelInts).1 := by
+  refine ⟨by simp [bqmHeaderDict, VarsField.truthy], by simp [bqmHeaderDict], by simp [dqmVariablesFlag], rfl⟩
+
+/-- **object dtype**: a BQM of dtype `object` is written as its float64 copy (documented in
+    `to_file`), so `from_file(to_file(bqm))` is that copy: the float64 content `asF64 c`, under the
+    float64 header. -/
+theorem bqm_object_dtype_roundtrip (parse : Bytes → Option (QHeader J)) (parseVars : Bytes → Option (List J)) (maj : UInt8)
+    (hdrText varsText : Bytes) (h : QHeader J) (asF64 : QContent → QContent) (c : QContent) (labels : List J)
+    (hmaj : maj.toNat < 3) (hh : HeaderOK parse hdrText h) (wf : BqmWF h (asF64 c)) (h8 : h.dsize = 8)
+    (hv1 : maj.toNat < 2 → ∃ l, h.vars = .labels l)
+    (hv2 : 2 ≤ maj.toNat → h.vars.truthy = true → VarsOK parseVars varsText labels) :
+    (bqmDecode parse parseVars).run (bqmEncode maj hdrText h (bqmWritten .object asF64 c) varsText) =
+      .ok (bqmResult maj h (asF64 c) labels, []) ∧ (bqmResult maj h (asF64 c) labels).hdr.dsize = 8 :=
+  ⟨bqm_file_roundtrip parse parseVars maj hdrText varsText h (asF64 c) labels hmaj hh wf hv1 hv2, h8⟩
+
+/-! ## round 4: header dictionaries as JSON text; whole files without a JSON oracle -/
+
+/-- **header dictionaries at text level**: `json.loads(json.dumps(d) + "\n" + blanks) = d` for every
+    flat dictionary with integer / float-text / string / array / boolean values (the modelled
+    `JSONObject`, separators `", "` and `": "`, keys in the writer's sorted order). -/
+theorem header_dict_text_roundtrip (d : HDict) (hd : ∀ kv ∈ d, FOK kv.2) (hsz : ∀ kv ∈ d, fieldSize kv.2 ≤ (dumpsDict d).length + 1)
+    (hlen : d.length ≤ (dumpsDict d).length + 1) (ws : List Char) (hws : Blank ws) : loadsDict (dumpsDict d ++ ws) = some d :=
+  loadsDict_dumps d hd hsz hlen ws hws
+
+/-- the BQM / QM header builders' dictionaries parse (text → dictionary → fields) to exactly the
+    header the loaders use: construction ↔ parsing is a round trip, and the keys are sorted as
+    `sort_keys=True` requires. -/
+theorem header_construction_parses (ver : Nat) (ignore : Bool) (vartype dsz isz : Nat) (c : QContent) (labels : List FLabel)
+    (hd : dsz = 4 ∨ dsz = 8) (hi : isz = 4 ∨ isz = 8) (hv : vartype = 0 ∨ vartype = 1) :
+    qheaderOfDict true true true (bqmDict (bqmHeaderDict ver ignore vartype dsz isz c labels)) =
+      some (bqmHeaderOf ver ignore vartype dsz isz c labels) ∧
+    qheaderOfDict false false true (qmDict (qmHeaderDict dsz isz c labels)) = some (qmHeaderOf dsz isz c labels) ∧
+    keysSorted (bqmDict (bqmHeaderDict ver ignore vartype dsz isz c labels)) = true ∧
+    keysSorted (qmDict (qmHeaderDict dsz isz c labels)) = true :=
+  ⟨bqm_dict_parses ver ignore vartype dsz isz c labels hd hi hv, qm_dict_parses dsz isz c labels hd hi,
+   by simp [keysSorted, bqmDict] <;> decide, by simp [keysSorted, qmDict] <;> decide⟩
+
+/-- **QM files end to end with no JSON oracle**: header text and label text written by the model
+    (`dumpsDict`, `dumpsJ`), parsed by the modelled `json.loads`; what is left to assume is only
+    well-formedness of the content (`QmWF`), float label texts of `repr` form (`JOKs`) and size bounds. -/
+theorem qm_file_roundtrip_json (dsz isz : Nat) (vi : VarInfo) (c : QContent) (labels : List FLabel)
+    (hd : dsz = 4 ∨ dsz = 8) (hi : isz = 4 ∨ isz = 8) (hl : JOKs (serializeLabels labels))
+    (wf : QmWF (qmHeaderOf dsz isz c labels) vi c)
+    (hlen : (dumpsDict (qmDict (qmHeaderDict dsz isz c labels))).length + 65 < 2 ^ 32)
+    (hvlen : (dumpsJ (.arr (serializeLabels labels))).length + 64 < 256 ^ nlb4) :
+    (qmDecode true parseQmHeader parseVarsReal).run
+        (qmEncode (qmHeaderText dsz isz c labels) (qmHeaderOf dsz isz c labels) vi c (varsTextOf labels)) =
+      .ok (qmResult (qmHeaderOf dsz isz c labels) vi c (serializeLabels labels), []) := by
+  obtain ⟨_, _, hc⟩ := Comp.qm_json dsz isz vi c labels hd hi hl wf hlen hvlen
+  simpa using hc.full []
+
+/-- **BQM files (format 1 and 2, `ignore_labels` or not) end to end with no JSON oracle** -/
+theorem bqm_file_roundtrip_json (maj : UInt8) (ignore : Bool) (vartype dsz isz : Nat) (c : QContent) (labels : List FLabel)
+    (hmaj : maj.toNat < 3) (hd : dsz = 4 ∨ dsz = 8) (hi : isz = 4 ∨ isz = 8) (hv : vartype = 0 ∨ vartype = 1)
+    (hl : JOKs (serializeLabels labels))
+    (wf : BqmWF (bqmHeaderOf maj.toNat ignore vartype dsz isz c labels) c)
+    (hlen : (dumpsDict (bqmDict (bqmHeaderDict maj.toNat ignore vartype dsz isz c labels))).length + 65 < 2 ^ 32)
+    (hvlen : (dumpsJ (.arr (serializeLabels labels))).length + 64 < 256 ^ nlb4) :
+    (bqmDecode parseBqmHeader parseVarsReal).run
+        (bqmEncode maj (bqmHeaderText maj.toNat ignore vartype dsz isz c labels) (bqmHeaderOf maj.toNat ignore vartype dsz isz c labels) c
+          (varsTextOf labels)) =
+      .ok (bqmResult maj (bqmHeaderOf maj.toNat ignore vartype dsz isz c labels) c (serializeLabels labels), []) := by
+  obtain ⟨_, _, hc⟩ := Comp.bqm_json maj ignore vartype dsz isz c labels hmaj hd hi hv hl wf hlen hvlen
+  simpa using hc.full []
 
 /-! ## non-vacuity: the hypotheses are satisfiable (the driver's JSON oracle, a one-variable model) -/
 
